@@ -74,3 +74,16 @@ def reservation_methods(with_reservation_text, drop_text):
             "\t{" + body2 + "\t}\n\tpub fn ps_release(&mut self)\n"
             "\t\tensures final(self).tokens == old(self).tokens && final(self).last_location == old(self).last_location && final(self).reserved_token is None,\n"
             "\t{" + dbody + "\t}\n}\n")
+
+
+def ps3_question_into_poison(u, key, text):
+    """PS3  CALL(ARGS)?;   ->   match CALL(ARGS) { Ok(ps_ok) => ps_ok, Err(ps_e) => return Err(core::convert::From::from(ps_e)) };
+    in a function that returns Poisonable<_> = Result<_, Poison> while CALL returns Result<_, Error>: the definition of `?` on a Result
+    (the Err payload goes through `From::from`, here the verified `impl From<Error> for Poison`), written out because the verifier leaves
+    the converted payload of `?` unconstrained.  Only statement-level calls of a plain function (`NAME(..)?;`); anything else: LostAnchor."""
+    pat = re.compile(r'\b(\w+\([^;?{}]*\))\?;')
+    new, n = pat.subn(lambda m: 'match %s { Ok(ps_ok) => ps_ok, Err(ps_e) => return Err(core::convert::From::from(ps_e)) };' % m.group(1), text)
+    if '?' in re.sub(r'"[^"\n]*"', '', new):
+        raise LostAnchor('%s: PS3 a `?` is left that is not a statement-level call' % key)
+    u.rules['PS3-question-into-poison'] += n
+    return new
